@@ -1151,9 +1151,9 @@ impl<T: Object> Object for NameTree<T> {
     fn from_primitive(p: Primitive, resolve: &impl Resolve) -> Result<Self> {
         let mut dict = t!(p.resolve(resolve)?.into_dictionary());
         
-        let limits = match dict.remove("Limits") {
+        let limits = match resolve_optional(dict.remove("Limits").unwrap_or(Primitive::Null), resolve)? {
             Some(limits) => {
-                let limits = limits.resolve(resolve)?.into_array()?;
+                let limits = limits.into_array()?;
                 if limits.len() != 2 {
                     bail!("Error reading NameTree: 'Limits' is not of length 2");
                 }
@@ -1223,9 +1223,9 @@ impl<T: Object> Object for NumberTree<T> {
     fn from_primitive(p: Primitive, resolve: &impl Resolve) -> Result<Self> {
         let mut dict = p.resolve(resolve)?.into_dictionary()?;
 
-        let limits = match dict.remove("Limits") {
+        let limits = match resolve_optional(dict.remove("Limits").unwrap_or(Primitive::Null), resolve)? {
             Some(limits) => {
-                let limits = t!(limits.resolve(resolve)?.into_array());
+                let limits = t!(limits.into_array());
                 if limits.len() != 2 {
                     bail!("Error reading NameTree: 'Limits' is not of length 2");
                 }
